@@ -142,33 +142,41 @@ def holdBack (mk : Bytes) (buf : Bytes) : Nat :=
 
 def isCont (c : Nat) : Bool := 128 ≤ c && c ≤ 191
 
-/-- strict UTF-8 decoding; `none` = UnicodeDecodeError -/
-def decodeUtf8 : Bytes → Option (List Nat)
-  | [] => some []
-  | a :: rest =>
-    if a < 128 then (decodeUtf8 rest).map (a :: ·)
-    else if 194 ≤ a && a ≤ 223 then
-      match rest with
-      | b :: r => if isCont b then (decodeUtf8 r).map (((a - 192) * 64 + (b - 128)) :: ·) else none
-      | _ => none
-    else if 224 ≤ a && a ≤ 239 then
-      match rest with
-      | b :: c :: r =>
-        let okB := if a = 224 then 160 ≤ b && b ≤ 191 else if a = 237 then 128 ≤ b && b ≤ 159 else isCont b
-        if okB && isCont c then
-          (decodeUtf8 r).map (((a - 224) * 4096 + (b - 128) * 64 + (c - 128)) :: ·)
-        else none
-      | _ => none
-    else if 240 ≤ a && a ≤ 244 then
-      match rest with
-      | b :: c :: d :: r =>
-        let okB := if a = 240 then 144 ≤ b && b ≤ 191 else if a = 244 then 128 ≤ b && b ≤ 143 else isCont b
-        if okB && isCont c && isCont d then
-          (decodeUtf8 r).map (((a - 240) * 262144 + (b - 128) * 4096 + (c - 128) * 64 + (d - 128)) :: ·)
-        else none
-      | _ => none
-    else none
-termination_by l => l.length
+/-- value and validity of one UTF-8 sequence given its lead byte and up to three
+following bytes: (code point, number of continuation bytes) -/
+def utf8Seq (a : Nat) (rest : Bytes) : Option (Nat × Nat) :=
+  if a < 128 then some (a, 0)
+  else if 194 ≤ a && a ≤ 223 then
+    match rest with
+    | b :: _ => if isCont b then some ((a - 192) * 64 + (b - 128), 1) else none
+    | _ => none
+  else if 224 ≤ a && a ≤ 239 then
+    match rest with
+    | b :: c :: _ =>
+      let okB := if a = 224 then 160 ≤ b && b ≤ 191 else if a = 237 then 128 ≤ b && b ≤ 159 else isCont b
+      if okB && isCont c then some ((a - 224) * 4096 + (b - 128) * 64 + (c - 128), 2) else none
+    | _ => none
+  else if 240 ≤ a && a ≤ 244 then
+    match rest with
+    | b :: c :: d :: _ =>
+      let okB := if a = 240 then 144 ≤ b && b ≤ 191 else if a = 244 then 128 ≤ b && b ≤ 143 else isCont b
+      if okB && isCont c && isCont d then
+        some ((a - 240) * 262144 + (b - 128) * 4096 + (c - 128) * 64 + (d - 128), 3)
+      else none
+    | _ => none
+  else none
+
+/-- strict UTF-8 decoding; `none` = UnicodeDecodeError.  `skip` counts the
+continuation bytes of the current sequence that are still to be passed over. -/
+def decodeUtf8Go : Nat → Bytes → Option (List Nat)
+  | _, [] => some []
+  | skip + 1, _ :: rest => decodeUtf8Go skip rest
+  | 0, a :: rest =>
+    match utf8Seq a rest with
+    | some (cp, k) => (decodeUtf8Go k rest).map (cp :: ·)
+    | none => none
+
+def decodeUtf8 (b : Bytes) : Option (List Nat) := decodeUtf8Go 0 b
 
 /-- charsets the model knows: utf-8, or anything that behaves like latin-1
 (latin-1 itself, and every unknown charset name: LookupError → latin-1 fallback) -/
@@ -198,21 +206,18 @@ def isPySpace (c : Nat) : Bool :=
 def stripBy (p : Nat → Bool) (l : List Nat) : List Nat :=
   ((l.dropWhile p).reverse.dropWhile p).reverse
 
-/-- HEADER_CONTINUATION_RE.sub(b" ", data): `LB[ \t]` → one space -/
-def subContinuation : Bytes → Bytes
-  | [] => []
-  | c :: cs =>
+/-- HEADER_CONTINUATION_RE.sub(b" ", data): `LB[ \t]` → one space.  `skip` counts
+the bytes of the current match that are still to be dropped. -/
+def subContGo : Nat → Bytes → Bytes
+  | _, [] => []
+  | skip + 1, _ :: cs => subContGo skip cs
+  | 0, c :: cs =>
     let k := lbLen (c :: cs)
-    if k > 0 then
-      match (c :: cs).drop k with
-      | d :: _ => if d = 32 || d = 9 then 32 :: subContinuation ((c :: cs).drop (k + 1))
-                  else c :: subContinuation cs
-      | [] => c :: subContinuation cs
-    else c :: subContinuation cs
-termination_by l => l.length
-decreasing_by
-  all_goals simp_wf
-  all_goals omega
+    if k > 0 && (match (c :: cs).drop k with | d :: _ => d = 32 || d = 9 | [] => false) then
+      32 :: subContGo k cs
+    else c :: subContGo 0 cs
+
+def subContinuation (b : Bytes) : Bytes := subContGo 0 b
 
 /-- bytes.splitlines(): split on `\r\n`, `\n`, `\r`; no trailing empty line -/
 def splitLinesGo : Bytes → Bytes → List Bytes
@@ -295,19 +300,16 @@ def parseParam (fuel : Nat) (s : List Nat) : List (List Nat) :=
     stripBy isPySpace (s'.take e) :: parseParam fuel (s'.drop e)
   | _, _ => []
 
-def replaceAll (pat rep : List Nat) : List Nat → List Nat
-  | [] => []
-  | c :: cs =>
-    if pat.isPrefixOf (c :: cs) && !pat.isEmpty then
-      rep ++ replaceAll pat rep ((c :: cs).drop pat.length)
-    else c :: replaceAll pat rep cs
-termination_by l => l.length
-decreasing_by
-  · simp_wf
-    cases pat with
-    | nil => simp at *
-    | cons a as => simp; omega
-  · simp_wf
+/-- `s.replace(pat, rep)` for a non-empty pattern; `skip` counts the bytes of the
+current occurrence that are still to be dropped -/
+def replaceGo (pat rep : List Nat) : Nat → List Nat → List Nat
+  | _, [] => []
+  | skip + 1, _ :: cs => replaceGo pat rep skip cs
+  | 0, c :: cs =>
+    if pat.isPrefixOf (c :: cs) && !pat.isEmpty then rep ++ replaceGo pat rep (pat.length - 1) cs
+    else c :: replaceGo pat rep 0 cs
+
+def replaceAll (pat rep : List Nat) (l : List Nat) : List Nat := replaceGo pat rep 0 l
 
 /-- one `name=value` field of `parse_header` -/
 def parseOption (p : List Nat) : Option (List Nat × List Nat) :=
